@@ -1,0 +1,65 @@
+package serializers
+
+import (
+	"errors"
+	"fmt"
+
+	"github.com/protobom/protobom/pkg/sbom"
+)
+
+// CheckDocument verifies that a document has the parts every serializer
+// dereferences: metadata, a node list, and no nil elements in any of the
+// lists. Serializers call it first, so that an incomplete document produces
+// an error instead of a nil pointer dereference.
+func CheckDocument(bom *sbom.Document) error {
+	if bom == nil {
+		return errors.New("document is nil")
+	}
+	if bom.Metadata == nil {
+		return errors.New("document metadata is nil")
+	}
+	if bom.NodeList == nil {
+		return errors.New("document node list is nil")
+	}
+	for i, t := range bom.Metadata.Tools {
+		if t == nil {
+			return fmt.Errorf("document metadata has a nil tool (#%d)", i)
+		}
+	}
+	for i, a := range bom.Metadata.Authors {
+		if a == nil {
+			return fmt.Errorf("document metadata has a nil author (#%d)", i)
+		}
+	}
+	for i, dt := range bom.Metadata.DocumentTypes {
+		if dt == nil {
+			return fmt.Errorf("document metadata has a nil document type (#%d)", i)
+		}
+	}
+	for i, e := range bom.NodeList.Edges {
+		if e == nil {
+			return fmt.Errorf("node list has a nil edge (#%d)", i)
+		}
+	}
+	for i, n := range bom.NodeList.Nodes {
+		if n == nil {
+			return fmt.Errorf("node list has a nil node (#%d)", i)
+		}
+		for _, p := range n.Suppliers {
+			if p == nil {
+				return fmt.Errorf("node %q has a nil supplier", n.Id)
+			}
+		}
+		for _, p := range n.Originators {
+			if p == nil {
+				return fmt.Errorf("node %q has a nil originator", n.Id)
+			}
+		}
+		for _, r := range n.ExternalReferences {
+			if r == nil {
+				return fmt.Errorf("node %q has a nil external reference", n.Id)
+			}
+		}
+	}
+	return nil
+}
